@@ -25,15 +25,20 @@ def all_dialects():
     return list(SqlFluffLineageAnalyzer.SUPPORTED_DIALECTS)
 
 
-def enumerate_cases(profile, D, depth):
-    """distinct statements (by ansi rendering) within the deviation bound, simplest first"""
+def enumerate_cases(profile, D, depth, new_alt_bound=None):
+    """distinct statements (by ansi rendering) within the deviation bound, simplest first.
+    new_alt_bound (thorough tiers, table profile): the alternatives added in the fourth round are explored to that bound, the older ones to D"""
     seen = {}
     n_exec = 0
-    for ch, st in explorer.explore(lambda c: sqlgen.gen_statement(c, profile, depth), D):
-        n_exec += 1
-        sql = sqlgen.render(st)
-        if sql not in seen:
-            seen[sql] = (st, ch.trace, len(ch.deviations()))
+    runs = [(profile, D)]
+    if new_alt_bound is not None and profile is sqlgen.TABLE_PROFILE and new_alt_bound < D:
+        runs = [(sqlgen.TABLE_PROFILE_R3, D), (profile, new_alt_bound)]
+    for prof, bound in runs:
+        for ch, st in explorer.explore(lambda c, prof=prof: sqlgen.gen_statement(c, prof, depth), bound):
+            n_exec += 1
+            sql = sqlgen.render(st)
+            if sql not in seen:
+                seen[sql] = (st, ch.trace, len(ch.deviations()))
     cases = sorted(seen.items(), key=lambda kv: (kv[1][2], len(kv[0]), kv[0]))
     return cases, n_exec
 
@@ -107,18 +112,21 @@ def run(tier: str, opts: dict) -> int:
     if "dialects" in opts:
         dialects = opts["dialects"].split(",")
     t0 = time.time()
-    cases, n_exec = enumerate_cases(sqlgen.TABLE_PROFILE, D, depth)
+    cases, n_exec = enumerate_cases(sqlgen.TABLE_PROFILE, D, depth, new_alt_bound=None if tier == "quick" else 2)
     known = {sql for sql, _ in cases}
-    more, n2 = enumerate_cases(sqlgen.TABLE_SETOP, D - 1, depth)  # second centre: union of two derived tables
+    more, n2 = enumerate_cases(sqlgen.TABLE_SETOP, 1, depth)  # second centre: union of two derived tables (one deviation, both tiers)
     more = [c for c in more if c[0] not in known]
     second = {id(c[1][0]) for c in more}
     cases += more
     n_exec += n2
+    if tier != "quick":
+        r3 = {sql for sql, _ in enumerate_cases(sqlgen.TABLE_PROFILE_R3, D, depth)[0]}
+        second |= {id(c[1][0]) for c in cases if c[0] not in r3}  # statements using a fourth-round alternative: dialects as in the quick tier
     tasks = []
     for sql, (st, trace, ndev) in cases:
         for d in dialects:
-            if tier != "quick" and id(st) in second and ndev >= 2 and d not in QUICK_DIALECTS and "dialects" not in opts:
-                continue  # thorough: the outer shell of the second ball under the 7 grammar families
+            if id(st) in second and d not in QUICK_DIALECTS and "dialects" not in opts:
+                continue  # the second ball under the 7 grammar families in both tiers
             if st["kind"] == "select_into" and d not in SELECT_INTO_OK:
                 continue  # SELECT ... INTO x assigns a variable in the mysql family: not a data-moving form there
             if tier != "quick" and ndev >= 3 and d not in QUICK_DIALECTS and "dialects" not in opts:
@@ -134,7 +142,7 @@ def run(tier: str, opts: dict) -> int:
         path_ids.add(id(st))
         rels = []
         sqlgen.walk_rels(st, lambda r: rels.append(r["k"]))
-        for d in PATH_DIALECTS if (tier == "quick" or ndev >= 3) else dialects:
+        for d in PATH_DIALECTS:  # both tiers
             if "path" in rels and d not in FILES_IN_FROM:
                 continue  # fmt.`path` in FROM denotes a file only in the spark family; elsewhere the same text is a table named that way
             tasks.append((st, d))
@@ -199,7 +207,7 @@ def run(tier: str, opts: dict) -> int:
         distinct_nontrivial=len(nontrivial),
         generator_executions=n_exec,
         distinct_statements=len(cases),
-        rule=f"all choice sequences with <= {D} deviations from 'INSERT INTO tgt SELECT c1 FROM t1' (and <= {D - 1} from a second centre, the union of two derived tables) over statement kind x query form x "
+        rule=f"all choice sequences with <= {D} deviations from 'INSERT INTO tgt SELECT c1 FROM t1' (and <= 1 from a second centre, the union of two derived tables) over statement kind x query form x "
         f"FROM shape x relation kind x WHERE form x select-list form x tail, nesting depth <= {depth}; rendered per dialect; "
         "non-trivial = distinct rendered statement reading >= 2 tables or containing a derived table, CTE or set operation",
         exhaustive=True,
@@ -208,7 +216,7 @@ def run(tier: str, opts: dict) -> int:
         per_statement_kind=per_kind,
         path_statements={"distinct": len(pcases), "accepted_evaluations_per_kind": path_accepted,
                          "rule": "second ball around INSERT OVERWRITE DIRECTORY '<p>' SELECT c1 FROM parquet.`<p>`: COPY t FROM / COPY t TO / COPY (query) TO / "
-                                 "INSERT OVERWRITE [LOCAL] DIRECTORY / files in any FROM slot, <= 2 deviations (thorough: under every dialect)"},
+                                 "INSERT OVERWRITE [LOCAL] DIRECTORY / files in any FROM slot, <= 2 deviations under the dialects that have these forms (both tiers)"},
         rejected_by_dialect=skipped,
     )
     rep.assumptions += [
